@@ -146,6 +146,7 @@ let clause_name = function
   | ClEquiv -> "ClEquiv" | ClTypes -> "ClTypes" | ClBaseB -> "ClBaseB" | ClSigned -> "ClSigned"
   | ClNonMall -> "ClNonMall" | ClSemSigned -> "ClSemSigned" | ClCtx -> "ClCtx" | ClLimits -> "ClLimits"
   | ClBareTop -> "ClBareTop" | ClTreeShape -> "ClTreeShape" | ClLeaves -> "ClLeaves" | ClInternalKey -> "ClInternalKey"
+  | ClNative -> "ClNative"
 
 (* ------------------------------------------------------------------ records *)
 type msrec = {
@@ -352,8 +353,18 @@ let finish_out (o : outrec) =
     let expected =
       if o.api = "tr" && not o.experr then Some (List.rev_map (fun s -> parse_ms (split s)) o.exp) else None in
     let ik = n_of_int o.ik in
-    let failing = run_tr_case o.kk pol ik o.inpol dl expected in
+    let native = String.length o.api >= 8 && String.sub o.api 0 8 = "trnative" in
+    let failing = run_tr_case o.kk pol ik o.inpol dl expected native in
     let impl = List.concat_map (fun (r, _, _) -> impl_clauses r) leaves in
+    (* the leaf's real script bytes (when the keys serialise): OP_IF / OP_NOTIF / OP_IFDUP present? *)
+    let impl = if native && List.exists (fun (r, _, _) -> kv (split r.lim) "ifop" = "1") leaves
+      then impl @ ["NativeLeafScriptHasIfOpcode"] else impl in
+    List.iter (fun (r, m, _) ->
+        match kv (split r.lim) "ifop" with
+        | "0" | "1" as b ->
+          if (b = "1") <> has_if_frag m then begin incr n_diff;
+            Printf.printf "DIFF C08 | id=%s | api=%s | ctx=%s | what=if-opcodes: model has_if_frag differs from the script bytes | ms=%s\n" o.oid o.api o.octx r.toks end
+        | _ -> ()) leaves;
     let impl = if o.drp <> "ok-eq" && o.drp <> "ok-alias" then impl @ ["DescReparse:" ^ o.drp] else impl in
     let all = List.map clause_name failing @ impl in
     bump (Printf.sprintf "tr_leaves/%d" (min (List.length leaves) 9));
@@ -386,10 +397,10 @@ let finish_out (o : outrec) =
     end;
     if !coq_budget_tr > 0 || (all <> [] && !coq_budget_bad > 0) then begin
       if all <> [] then decr coq_budget_bad else decr coq_budget_tr;
-      Printf.printf "COQ VT %s (%s) %s %s %s %s %s\n" (ckkl o.kk) (cpol pol) (cn ik) (cbool o.inpol)
+      Printf.printf "COQ VT %s (%s) %s %s %s %s %s %s\n" (ckkl o.kk) (cpol pol) (cn ik) (cbool o.inpol)
         (clist (fun (d, (m, codes)) -> "(" ^ cn d ^ ", (" ^ cms m ^ ", " ^ clist cn codes ^ "))") dl)
         (match expected with Some l -> "(Some " ^ clist cms l ^ ")" | None -> "None")
-        (clist clause_name failing)
+        (cbool native) (clist clause_name failing)
     end
   end else begin
     (* ---- one miniscript (plain or inside bare/sh/wsh/sh-wsh) ---- *)
